@@ -14,7 +14,7 @@ PYOP = {"*": "*", "+": "+", "-": "-", "<<": "<<", ">>": ">>", "<": "<", ">": ">"
 def run(ctx):
     ctx.rule("C26.R1", "#if operator precedence follows the C11 chain; only ?: is right associative", floor=15)
     ctx.rule("C26.R2", "each #if operator is evaluated with the Python operator of the same meaning; / and % truncate", floor=15)
-    ctx.rule("C26.R3", "take-operator test: left associative operators need strictly higher priority", floor=1)
+    ctx.rule("C26.R3", "#if expression grouping: after a binary operator the right operand takes every tighter operator, an equally tight one only if the operator is right associative, and no looser one; a unary operator's operand takes NO binary operator; a fresh (sub)expression takes them all", floor=60)
     ctx.rule("C26.R4", "unsigned literals keep their unsignedness (type specifier of the literal is consulted)", floor=1)
     project = ctx.project
     mod = project.module(F)
@@ -65,21 +65,8 @@ def run(ctx):
                 ctx.undecided("C26.R2", site, "callable of `%s` not resolved" % o)
             else:
                 ctx.ob("C26.R2", site, "`%s` is evaluated with Python `%s`" % (o, PYOP[o]), PYOP[o] in used and not (used - {PYOP[o]}), construct="sem:" + o, node=fe, detail="%r uses %s" % (d, sorted(used)))
-    # R3
-    bt = ctx.fn(F, "CPreProcessor._binop_take")
-    ok = None
-    for n in walk_no_nested(bt):
-        if isinstance(n, ast.If) and "left_associative" in norm(n.test):
-            r1 = [x.value for x in n.body if isinstance(x, ast.Return)]
-            r2 = [x.value for x in n.orelse if isinstance(x, ast.Return)]
-            if r1 and r2 and isinstance(r1[0], ast.Compare) and isinstance(r2[0], ast.Compare):
-                pos = not norm(n.test).startswith("not ")
-                l, r = (r1[0], r2[0]) if pos else (r2[0], r1[0])
-                ok = isinstance(l.ops[0], ast.Gt) and isinstance(r.ops[0], ast.GtE) and norm(l.left) == "op_prio" and norm(r.left) == "op_prio"
-    if ok is None:
-        ctx.undecided("C26.R3", F + ":CPreProcessor._binop_take", "associativity test not recognised")
-    else:
-        ctx.ob("C26.R3", F + ":CPreProcessor._binop_take", "left associative: take iff op_prio > priority; right associative: op_prio >= priority", ok, construct="take")
+    # R3 - grouping, decided on the operator table itself
+    _grouping(ctx)
     # R4
     pe = ctx.fn(F, "CPreProcessor.parse_expression")
     for c in calls_in(pe, "cnum"):
@@ -155,3 +142,86 @@ def _lazy(ctx):
             cc = [(norm(e), pol) for e, pol in sym.conjuncts(c_[0], ev, {})]
             ok = ("value", True) in cb and ("value", False) in cc
     ctx.ob("C26.R6", site, "`?:` evaluates exactly the selected arm", ok, construct="lazy:?:")
+
+
+def _grouping(ctx):
+    """The expression parser is precedence climbing driven by OP_MAP (priority, right-associative).  Whether it
+    groups like C is a finite question: for every pair of operators, does the parse of the right operand (started at
+    the priority the code hands to parse_expression) take the second operator?  _binop_take and the priority
+    expressions are evaluated with sa/minieval over the table, so any equivalent formulation gives the same verdict."""
+    from .. import minieval, sym
+    from ..core import try_const
+    cls = ctx.cls(F, "CPreProcessor")
+    opmap = None
+    for st in cls.body:
+        if isinstance(st, ast.Assign) and norm(st.targets[0]) == "OP_MAP" and isinstance(st.value, ast.Dict):
+            opmap = {}
+            for k, v in zip(st.value.keys, st.value.values):
+                if isinstance(v, ast.Tuple) and len(v.elts) >= 2:
+                    opmap[try_const(k)] = (try_const(v.elts[0]), try_const(v.elts[1])) + (None,) * (len(v.elts) - 2)
+    ctx.need(opmap and len(opmap) >= 15 and all(isinstance(p[0], int) and isinstance(p[1], bool) for p in opmap.values()), "OP_MAP is not a literal table of (priority, right associative, ...)")
+    bt = ctx.fn(F, "CPreProcessor._binop_take")
+    pe = ctx.fn(F, "CPreProcessor.parse_expression")
+    site = F + ":CPreProcessor.parse_expression"
+    base_env = {"self.OP_MAP": opmap}
+
+    def take(op, prio):
+        return bool(minieval.call(bt, [op, prio], base_env))
+    loops = [l for l in pe.body if isinstance(l, ast.While)]
+    ctx.need(len(loops) == 1, "parse_expression: operator loop not found")
+    loop = loops[0]
+    rhs_calls = [n for n in ast.walk(loop) if isinstance(n, ast.Assign) and norm(n.targets[0]) == "rhs" and isinstance(n.value, ast.Call) and norm(n.value.func) == "self.parse_expression"]
+    ctx.need(rhs_calls, "parse_expression: parse of the right operand not found")
+    lenv = sym.single_assign_env(loop)
+
+    def rhs_priority(op):
+        env = dict(base_env)
+        env.update({"op": op, "op_prio": opmap[op][0]})
+        for n in rhs_calls:
+            conds = sym.conjuncts(n, pe, {})
+            holds = True
+            for c, pol in conds:
+                t = " ".join(norm(c).split())
+                if "_binop_take" in t or t in ("True", "token", "not token"):
+                    continue
+                try:
+                    if bool(minieval.ev(c, env)) != pol:
+                        holds = False
+                        break
+                except minieval.Undecidable:
+                    continue
+            if holds:
+                arg = n.value.args[0] if n.value.args else None
+                if arg is None:
+                    return pe_default
+                return minieval.ev(arg, env)
+        raise minieval.Undecidable("no right-operand parse applies to %s" % op)
+    d = pe.args.defaults
+    pe_default = try_const(d[0]) if d else None
+    ctx.need(isinstance(pe_default, int), "parse_expression: default priority is not a literal")
+    pre = [c for st in pe.body if st is not loop and st.lineno < loop.lineno for c in ast.walk(st) if isinstance(c, ast.Call) and norm(c.func) == "self.parse_expression"]
+    unary = sorted({try_const(c.args[0]) for c in pre if c.args})
+    ctx.need(unary and all(isinstance(u, int) for u in unary), "parse_expression: operand parses of the unary operators not found")
+    try:
+        n = 0
+        for o1, (q1, ra1, *_r) in sorted(opmap.items()):
+            r = rhs_priority(o1)
+            for o2, (q2, ra2, *_r2) in sorted(opmap.items()):
+                got = take(o2, r)
+                want = q2 > q1 or (q2 == q1 and ra1)
+                if o1 == "?" and o2 == "?":
+                    want = True   # a ? b : c ? d : e  groups to the right
+                n += 1
+                ctx.ob("C26.R3", site, "in `a %s b %s c` the operand b %s `%s`" % (o1, o2, "takes" if want else "leaves", o2), got == want, construct="group:%s:%s" % (o1, o2),
+                       detail="right operand of `%s` is parsed at priority %r; _binop_take(%r, %r) = %r" % (o1, r, o2, r, got))
+        for u in unary:
+            for o2 in sorted(opmap):
+                ctx.ob("C26.R3", site, "the operand of a unary operator (parsed at priority %d) does not take `%s`: `~a %s b` is `(~a) %s b`" % (u, o2, o2, o2), take(o2, u) is False, construct="unary:%d:%s" % (u, o2))
+        for o2 in sorted(opmap):
+            ctx.ob("C26.R3", site, "a fresh expression (priority %d) takes `%s`" % (pe_default, o2), take(o2, pe_default) is True, construct="entry:" + o2)
+        ctx.ob("C26.R3", F + ":CPreProcessor._binop_take", "a token that is not an operator ends the expression", take(")", pe_default) is False and take(":", pe_default) is False, construct="non-operator")
+    except minieval.Undecidable as e:
+        ctx.undecided("C26.R3", site, "operator grouping could not be evaluated: %s" % e)
+    cont = [n for n in ast.walk(loop) if isinstance(n, ast.Call) and norm(n.func) == "self._binop_take"]
+    ok = len(cont) == 1 and [norm(a) for a in cont[0].args] == ["op", "priority"]
+    ctx.ob("C26.R3", site, "the loop asks _binop_take about the next operator with the priority this parse was started with", ok, construct="loop-uses-own-priority")
